@@ -55,6 +55,26 @@ def facts_of(assumptions):
     return facts
 
 
+def may_be_negative(t):
+    """True when the term is built from a signed field without a clamp
+    from below."""
+    if isinstance(t, K):
+        return isinstance(t.v, int) and t.v < 0
+    if not isinstance(t, T):
+        return False
+    if t.op == 'int':
+        return bool(t.args[4])
+    if t.op == 'call' and t.args[0] == 'max':
+        return all(may_be_negative(a) for a in t.args[1:])
+    if t.op == 'call' and t.args[0] == 'min':
+        return any(may_be_negative(a) for a in t.args[1:])
+    if t.op == 'binop':
+        if t.args[0] == '-':
+            return True
+        return any(may_be_negative(a) for a in t.args[1:])
+    return False
+
+
 def upper(t, facts=None):
     """Upper bound of a non-negative integer term (interval analysis,
     sharpened by the comparisons assumed on the path)."""
@@ -154,7 +174,8 @@ def _writers(ctx):
                             mod.name.endswith('format_inspector'):
                         n_data += 1
                         rep.check('O1', 'store to .data in %s' % fn,
-                                  fn.split('.')[0] in region_classes,
+                                  fn.split('.')[0] in region_classes or
+                                  None,
                                   'region data is written in %s' % where,
                                   where=where)
                     if sub.attr == 'length' and \
@@ -166,7 +187,7 @@ def _writers(ctx):
                             isinstance(node.value, ast.Call) and \
                             ast.unparse(node.value.func) == 'len'
                         rep.check('O3', 'store to .length in %s' % fn,
-                                  ok or shrink,
+                                  (ok or shrink) or None,
                                   'region length written in %s as %s' % (
                                       where, ast.unparse(node)[:80]),
                                   where=where)
@@ -176,7 +197,7 @@ def _writers(ctx):
                                   % fn, fn in ('FileInspector.__init__',
                                                'FileInspector.new_region',
                                                'FileInspector.'
-                                               'delete_region'),
+                                               'delete_region') or None,
                                   'region table written in %s' % where,
                                   where=where)
             if isinstance(node, ast.Delete):
@@ -188,7 +209,8 @@ def _writers(ctx):
                             n_regs += 1
                             rep.check('O5', 'delete from _capture_regions '
                                       'in %s' % fn,
-                                      fn == 'FileInspector.delete_region',
+                                      fn == 'FileInspector.delete_region'
+                                      or None,
                                       'region removed in %s' % fn)
     rep.count('stores to region data', n_data, floor=1)
     rep.count('stores to region length', n_len, floor=1)
@@ -286,6 +308,9 @@ def _bounds(ctx):
                                       show(k))
                         b = upper(r.fields.get('length'),
                                   facts_of(o.assumptions))
+                        if may_be_negative(r.fields.get('length')):
+                            # a negative length defeats data[:length]
+                            b = INF
                         parts.append('%s<=%s' % (
                             k.v if isinstance(k, K) else '?',
                             b if b != INF else 'unbounded: ' + show(
